@@ -179,7 +179,7 @@ func c05Battery(ast *cypher.RegularQuery, params map[string]any) c05Verdict {
 		if i == 0 {
 			ref, v.first = o, o
 		} else if o.key() != ref.key() {
-			v.cls, v.detail = "nondeterministic", fmt.Sprintf("sequential run %d: %s | first: %s", i, firstDiff(ref.key(), o.key()), o.Status)
+			v.cls, v.detail = "nondeterministic", fmt.Sprintf("sequential run %d: %s | first: %s", i, firstTextDiff(ref.key(), o.key()), o.Status)
 			return v
 		}
 	}
@@ -211,17 +211,17 @@ func c05Battery(ast *cypher.RegularQuery, params map[string]any) c05Verdict {
 		v.runs += c05Concurrent
 		for g, o := range outs {
 			if o.key() != ref.key() {
-				v.cls, v.detail = "nondeterministic", fmt.Sprintf("concurrent run %d: %s", g, firstDiff(ref.key(), o.key()))
+				v.cls, v.detail = "nondeterministic", fmt.Sprintf("concurrent run %d: %s", g, firstTextDiff(ref.key(), o.key()))
 				return v
 			}
 		}
 	}
 	if after := ToSexp(ast); after != beforeAST {
-		v.cls, v.detail = "ast-mutated", firstDiff(beforeAST, after)
+		v.cls, v.detail = "ast-mutated", firstTextDiff(beforeAST, after)
 		return v
 	}
 	if after := ToSexp(params); after != beforeParams {
-		v.cls, v.detail = "params-mutated", firstDiff(beforeParams, after)
+		v.cls, v.detail = "params-mutated", firstTextDiff(beforeParams, after)
 		// the one shape known on the unchanged tree: nil slices inside a nested map value become empty slices
 		if strings.ReplaceAll(after, "(list)", "nil") == strings.ReplaceAll(beforeParams, "(list)", "nil") {
 			v.cls = "params-mutated:nil-slice-to-empty"
